@@ -149,6 +149,27 @@ def judge(chk, label, lines, zones_wanted, impl_pieces, work, start, until, note
                                   'zone %s of source %s: %s' % (n, label, 'the era beginning at the year boundary takes effect at %s instead of %s' % (v['impl']['obs'][:2], sp[:2])),
                                   {'zone': n, 'target': label, 'spec': sp, 'impl': v['impl']['obs']})
                     continue
+            # classify a third known construct: an era ends at (month, day expression, time, suffix) and the next era's policy has
+            # a rule with the very same fields, in wall or standard time, while the offsets of the two eras differ: the two
+            # readings denote different instants, but both processors (comparing date tuples) take the rule to fire exactly at
+            # the start of the era
+            if sp:
+                hit = False
+                for i in range(1, len(zones[n])):
+                    u = zones[n][i - 1]['until']
+                    nx = zones[n][i]
+                    if not u or u['suf'] not in ('w', 's') or nx['rules'][0] != 'named' or zones[n][i - 1]['off'] == nx['off'] and u['suf'] == 's':
+                        continue
+                    same = [r for r in rules.get(nx['rules'][1], []) if (r['mon'], r['on'], r['at'], r['suf']) == (u['mon'], u['on'], u['at'], u['suf']) and r['fr'] <= u['y'] <= r['to']]
+                    lo = tzparse.days(u['y'], u['mon'], 1) - 2
+                    hi = tzparse.days(u['y'] + (u['mon'] == 12), u['mon'] % 12 + 1, 1) + 9
+                    if same and lo <= sp[0] <= hi and (zones[n][i - 1]['off'] != nx['off'] or zones[n][i - 1]['rules'][0] != 'none'):
+                        hit = True
+                if hit:
+                    chk.violation('%s:era-boundary-reads-like-rule-transition' % ':'.join(label.split(':')[1:]),
+                                  'zone %s of source %s: at %s the compiled zone shows %s, zic %s' % (n, label, v['impl']['obs'][:2], v['impl']['obs'][2:], sp[2:]),
+                                  {'zone': n, 'target': label, 'spec': sp, 'impl': v['impl']['obs']})
+                    continue
             # classify a second known construct: the trace equals the source semantics *without* zic's writezone merge
             # (TzSem.PiecesUnmerged), i.e. the only difference from zic is that two transitions zic folds are kept apart
             if v.get('implUnmerged') is True:
